@@ -14,7 +14,8 @@ class C06(Prop):
     pid = "C06"
     sources = ["socialchoicekit/bistochastic.py", "socialchoicekit/flow.py"]
     groups = {"bvn": Group("bvn", "From SCK Require Import FlowModel BipModel BvN2 RunBvN.", "RunBvN.bvn_case", "RunBvN.chk_bvn"),
-              "pg": Group("pg", "From SCK Require Import FlowModel BipModel BvN2 RunBvN.", "RunBvN.pg_case", "RunBvN.chk_pg")}
+              "pg": Group("pg", "From SCK Require Import FlowModel BipModel BvN2 RunBvN.", "RunBvN.pg_case", "RunBvN.chk_pg"),
+              "bvnok": Group("bvnok", "From SCK Require Import FlowModel BipModel BvN2 RunBvN.", "RunBvN.bvn_case", "RunBvN.chk_bvn_ok")}      # informational (coq_info)
     rule = ("convex combinations of random permutation matrices with dyadic weights (compared term by term with the exact-rational model, binary64 arithmetic being exact there), "
             "uniform 1/k weights, generic float weights, float32/float16/int8/uint8/int16 matrices (pattern-balanced generic values of the narrow dtype), scaled variants and outputs of probabilistic serial / simultaneous eating (checked by the direct oracle: "
             "<= n*n terms, z > 0, permutation matrices, reconstruction within 1e-6, sum of z = row sum), n <= 6; positivity_graph compared on every matrix. "
@@ -184,6 +185,11 @@ class C06(Prop):
             return ("pg", ct(cl([cl([cq(frac(x)) for x in row]) for row in X0]), cl([ct(cz(k), cl([cz(v) for v in l])) for k, l in obs["pg"]])))
         dec = cl([ct(cq(frac(z)), cl([ct(cz(i), cz(P[i].index(1.0) + n)) for i in range(n)])) for z, P in obs["terms"]])
         return ("bvn", ct(cl([cl([cq(frac(x)) for x in row]) for row in X0]), cn(obs["fuel"]), dec))
+
+    def coq_info(self, case, obs):
+        """the hypothesis of gen_bvn_is_model (BvNSnap.bvn_ok) evaluated by the kernel on the dyadic cases"""
+        lit = self.coq(case, obs)
+        return ("bvnok", lit[1]) if lit is not None and lit[0] == "bvn" else None
 
     def nontrivial(self, case, obs):
         return obs["status"] == "ok" and len(obs["terms"]) >= 2
